@@ -76,3 +76,111 @@ Proof.
         rewrite (timing_rt hi (b :: rest) Hhi Hb); destruct b; cbn in Hb; try discriminate; reflexivity. }
     destruct lop, rop; cbn [app]; rewrite <- app_assoc; rewrite X by reflexivity; reflexivity.
 Qed.
+
+(* ---- statements: no statement keyword inside printed expressions / intervals; conditions ---- *)
+Definition cleant (t : token) : bool := negb (is_stmt_tok t || is_when t).
+Definition clean (ts : list token) : bool := forallb cleant ts.
+
+Lemma clean_no ts : clean ts = true -> existsb is_stmt_tok ts = false /\ existsb is_when ts = false.
+Proof.
+  induction ts as [|t ts IH]; [split; reflexivity|]. cbn [clean forallb existsb]. intros H.
+  apply andb_prop in H. destruct H as [Ht Hts]. destruct (IH Hts) as [A B]. rewrite A, B.
+  unfold cleant in Ht. apply negb_true_iff in Ht. apply orb_false_iff in Ht. destruct Ht as [-> ->]. split; reflexivity.
+Qed.
+
+Section S.
+  Variable W : wnames.
+
+  Lemma clean_join sep l : cleant sep = true -> Forall (fun x => clean (pr W x) = true) l ->
+    clean (join sep (map (pr W) l)) = true.
+  Proof.
+    intros Hs HF. induction HF as [|x l Hx HF IH]; [reflexivity|].
+    destruct l as [|y l]; [exact Hx|].
+    change (join sep (map (pr W) (x :: y :: l))) with (pr W x ++ sep :: join sep (map (pr W) (y :: l))).
+    unfold clean in *. rewrite forallb_app. cbn [forallb]. rewrite Hx, Hs, IH. reflexivity.
+  Qed.
+  Lemma clean_vars vs : clean (pr_vars W vs) = true.
+  Proof.
+    unfold pr_vars. induction vs as [|p vs IH]; [reflexivity|]. destruct vs as [|p' vs]; [reflexivity|].
+    change (join TComma (map (fun p => [TName (nmT W (snd p)); TName (nmV W (fst p))]) (p :: p' :: vs)))
+      with ([TName (nmT W (snd p)); TName (nmV W (fst p))] ++ TComma ::
+            join TComma (map (fun p => [TName (nmT W (snd p)); TName (nmV W (fst p))]) (p' :: vs))).
+    unfold clean in *. rewrite forallb_app. cbn [forallb]. rewrite IH. reflexivity.
+  Qed.
+
+  Lemma clean_pr : forall e, clean (pr W e) = true.
+  Proof.
+    induction e using expr_ind'; try reflexivity;
+      try (cbn [pr]; unfold clean in *; cbn [forallb]; rewrite ?forallb_app; cbn [forallb];
+           rewrite ?IHe, ?IHe1, ?IHe2; reflexivity).
+    all: try (destruct b; reflexivity).
+    all: try (cbn [pr]; unfold pr_int; destruct (z <? 0)%Z; reflexivity).
+    all: try (cbn [pr]; unfold pr_int, clean; destruct (Qnum (this q) <? 0)%Z; reflexivity).
+    all: try (destruct args as [|x l]; [reflexivity|];
+      change (pr W (EFluent f (x :: l))) with (TName (nmF W f) :: TLp :: join TComma (map (pr W) (x :: l)) ++ [TRp]);
+      pose proof (clean_join TComma (x :: l) eq_refl H) as C; unfold clean in *; cbn [forallb]; rewrite forallb_app, C; reflexivity).
+    all: try (cbn [pr]; match goal with |- context [join ?s _] => pose proof (clean_join s l eq_refl H) as C end;
+      unfold clean in *; cbn [forallb]; rewrite forallb_app, C; reflexivity).
+    all: try (cbn [pr]; unfold clean in *; repeat (progress (cbn [forallb]; rewrite ?forallb_app));
+              rewrite ?IHe1, ?IHe2; cbn [forallb andb]; rewrite ?IHe1, ?IHe2; reflexivity).
+    all: cbn [pr]; match goal with |- context [pr_vars W ?v] => pose proof (clean_vars v) as V end;
+      unfold clean in *; cbn [forallb]; rewrite !forallb_app; cbn [forallb]; rewrite V, IHe; reflexivity.
+  Qed.
+
+  Lemma clean_rat q : clean (pr_rat q) = true.
+  Proof. unfold pr_rat. destruct (Qden (this q)); reflexivity. Qed.
+  Lemma clean_timing tm : clean (pr_timing tm) = true.
+  Proof.
+    unfold pr_timing. destruct (qc_pos (tm_delay tm)); [|destruct (qc_neg (tm_delay tm))];
+      unfold clean; cbn [forallb]; fold (clean (pr_rat (tm_delay tm))); fold (clean (pr_rat (- tm_delay tm)));
+      rewrite ?clean_rat; destruct (tm_anchor tm); reflexivity.
+  Qed.
+  Lemma clean_interval iv : clean (pr_interval iv) = true.
+  Proof.
+    unfold pr_interval, clean. cbn [forallb]. rewrite forallb_app.
+    pose proof (clean_timing (ti_lo iv)) as A. pose proof (clean_timing (ti_hi iv)) as B. unfold clean in A, B.
+    destruct (timing_eqb (ti_lo iv) (ti_hi iv)); rewrite ?forallb_app; cbn [forallb]; rewrite ?A, ?B;
+      destruct (ti_lopen iv), (ti_ropen iv); reflexivity.
+  Qed.
+
+  Variable R : rtables.
+  Variable arity : N -> nat.
+  Hypothesis HN : names_ok W R arity.
+
+  (* the expression theorem as the inner step: an expression of the fragment followed by a token that is neither an
+     operator nor "(" is read by the top level of the expression parser, which stops in front of that token *)
+  Lemma expr_step e bs rest n :
+    anml_ok R arity bs e = true -> nolp rest = true -> lv (hd rest) = 0 ->
+    20 * length (pr W e) + 10 <= n ->
+    go R n SImp (rscope W bs) (pr W e ++ rest) = Ok (norm e) (tier_of e) rest.
+  Proof.
+    intros Hok Hl Hv Hn.
+    pose proof (main W R arity HN true (fun _ => quant_case W R arity HN) e bs (frag_true e) Hok rest Hl) as P.
+    exact (up_imp R _ _ _ _ _ _ (start_pr W R arity e bs rest Hok) P Hv n Hn).
+  Qed.
+
+  Lemma timing_eqb_eq a b : timing_eqb a b = true -> a = b.
+  Proof.
+    destruct a as [x p], b as [y q]. unfold timing_eqb. cbn. intros H. apply andb_prop in H. destruct H as [A B].
+    apply qc_eqb_eq in B. subst. destruct x, y; cbn in A; try discriminate; reflexivity.
+  Qed.
+
+  Theorem cond_rt iv c : stmt_ok R arity (SCond iv c) = true ->
+    parse_stmt R (pr_stmt W (SCond iv c)) = Some (PCond iv (norm c)).
+  Proof.
+    cbn [stmt_ok pr_stmt]. intros H. apply andb_prop in H. destruct H as [Hiv Hc].
+    unfold parse_stmt.
+    assert (Cl : clean (pr_interval iv ++ pr W c ++ [TSemi]) = true).
+    { unfold clean. rewrite !forallb_app. fold (clean (pr_interval iv)). fold (clean (pr W c)).
+      rewrite clean_interval, clean_pr. reflexivity. }
+    destruct (clean_no _ Cl) as [-> ->].
+    unfold parse_cond, opt_interval. rewrite (interval_rt iv _ Hiv).
+    change (@nil (N * N)) with (rscope W []).
+    rewrite (expr_step c [] [TSemi] _ Hc eq_refl eq_refl).
+    - f_equal. f_equal. destruct (timing_eqb (ti_lo iv) (ti_hi iv)) eqn:E; [|reflexivity].
+      unfold interval_ok in Hiv. rewrite E in Hiv. apply andb_prop in Hiv. destruct Hiv as [_ Hb].
+      apply andb_prop in Hb. destruct Hb as [Hl Hr]. apply negb_true_iff in Hl, Hr.
+      apply timing_eqb_eq in E. destruct iv as [lo hi lop rop]. cbn in *. subst. reflexivity.
+    - unfold fuel_of. rewrite !app_length. lia.
+  Qed.
+End S.
